@@ -22,7 +22,7 @@ LEVEL_NOTE = ("needs fixes/C08-series-matrix-power.patch (the pinned tree uses a
 TECHNIQUE = "pysym regeneration + Coq (field/ring, induction, stdlib pre_cos_bound/pre_sin_bound, interval) + numeric search oracle"
 RULE = ("initial attitudes from the named thin regions of SO(3) then uniform on S^3; rates log-uniform 1e-2..10 rad/s about axis-aligned, "
         "oblique and random axes (plus exactly-zero samples); dt log-uniform 1e-3..5e-2 plus the end points; step counts 1..400 incl. "
-        "1,2,3,4,5,7; orders 0..6; inputs also as Python lists / integer arrays / float32 where exactly representable; "
+        "1,2,3,4,5,7; orders 0..6; inputs also as Python lists / tuples / integer arrays where exactly representable (float32 is rejected by the library's own input checks); "
         "non-trivial = non-zero rate; distinct = distinct (oracle, rounded input)")
 TRUSTED = ["Coq 8.16.1 kernel; vm_compute for the float copies; Interval's primitive-float axioms (refuted file and numbers lemma only)",
            "pysym tracing translator incl. the additive symbolic np.linalg.matrix_power and np.c_ fallback in symnp.py",
@@ -52,6 +52,9 @@ def targets():
         mk('ekf_f', IN, lambda A, v: F(A).EKF(magnetic_ref=[1.0, 0.0, 1.0]).f(v.vec(*Q), v.vec(*W), v.dt), 'EKF(...).f(q, w, dt)'),
         mk('roleq', IN, lambda A, v: F(A).ROLEQ(weights=np.ones(2), magnetic_ref=[1.0, 0.0, 1.0]).attitude_propagation(v.vec(*Q), v.vec(*W), v.dt),
            'ROLEQ(...).attitude_propagation(q, w, dt)'),
+        mk('integration', ['g0', 'g1', 'g2'],
+           lambda A, v: F(A).AngularRate(gyr=v.mat([['g0', 'g1', 'g2']]), Dt=0.05, method='integration').Q[0],
+           "AngularRate(gyr=[g], Dt=0.05, method='integration').Q[0]"),
         mk('angvel', P + Q, lambda A, v: A.QuaternionArray(v.mat([P, Q])).angular_velocities(0.01)[0],
            'QuaternionArray([p, q]).angular_velocities(0.01)[0]'),
     ]
@@ -59,9 +62,9 @@ def targets():
 
 
 STAGES = [['C08_lib.v'],
-          ['C08_closed.v', 'C08_series.v', 'C08_series5.v', 'C08_series6.v', 'C08_bounds.v', 'C08_deadreck.v',
+          ['C08_closed.v', 'C08_series.v', 'C08_series5.v', 'C08_series6.v', 'C08_bounds.v', 'C08_deadreck.v', 'C08_integration.v',
            ('C08_refuted.v', {'finding': 'update-series/not-partial-sum'})],
-          ['C08.v']]
+          ['C08.v', ('C08_integration_refuted.v', {'finding': 'AngularRate-integration/not-a-rotation-integral'})]]
 
 
 # ------------------------------------------------------------------------------------------
@@ -141,6 +144,9 @@ def correspondence(ctx):
     import ahrs
     two = [{**cm.d(P, cs[i][1]), **cm.d(Q, cs[(3 * i + 1) % len(cs)][1])} for i in range(len(cs))]
     two += [{**cm.d(P, 3 * cs[2][1]), **cm.d(Q, 0.5 * cs[4][1])}]
+    gc = [{'g0': float(w[0]), 'g1': float(w[1]), 'g2': float(w[2])} for _, _, w, _ in cs] + [{'g0': 4.0, 'g1': 4.0, 'g2': 0.0}, {'g0': 0.0, 'g1': 0.0, 'g2': 0.0}]
+    ctx.correspond('C08_integration', gc,
+                   lambda c: ahrs.filters.AngularRate(gyr=np.array([[c['g0'], c['g1'], c['g2']]]), Dt=0.05, method='integration').Q[0], tol_ulp=128)
     ctx.correspond('C08_angvel', two,
                    lambda c: ahrs.QuaternionArray(np.array([[c[k] for k in P], [c[k] for k in Q]])).angular_velocities(0.01)[0], tol_ulp=128)
 
@@ -369,14 +375,14 @@ def search(ctx, scale):
         ('closed', {'q0': [0.0, 1.0, 0.0, 0.0], 'w': [0.0, 0.0, 0.0], 'dt': 0.05, 'N': 1}),
         ('closed', {'q0': e, 'w': [2.0, -1.0, 4.0], 'dt': 0.03125, 'N': 4, 'form': 'list'}),
         ('closed', {'q0': e, 'w': [2.0, -1.0, 4.0], 'dt': 0.03125, 'N': 3, 'form': 'int'}),
-        ('closed', {'q0': e, 'w': [0.5, 0.25, -8.0], 'dt': 0.015625, 'N': 5, 'form': 'f32'}),
+        ('closed', {'q0': e, 'w': [0.5, 0.25, -8.0], 'dt': 0.015625, 'N': 5, 'form': 'tuple'}),
         ('closed', {'q0': [0.5, 0.5, 0.5, 0.5], 'w': [10.0, 0.0, 0.0], 'dt': 0.05, 'N': 400}),
         ('closed', {'q0': [0.5, -0.5, 0.5, -0.5], 'w': [0.0, 0.0, 0.01], 'dt': 0.001, 'N': 400}),
         ('series', {'q': e, 'w': [10.0, 0.0, 0.0], 'dt': 0.05, 'order': 6}),
         ('series', {'q': [0.5, 0.5, -0.5, 0.5], 'w': [6.0, -8.0, 0.0], 'dt': 0.05, 'order': 4}),
         ('series', {'q': e, 'w': [2.0, -1.0, 4.0], 'dt': 0.03125, 'order': 5, 'form': 'list'}),
         ('series', {'q': e, 'w': [2.0, -1.0, 4.0], 'dt': 0.03125, 'order': 2, 'form': 'int'}),
-        ('series', {'q': [0.0, 0.0, 1.0, 0.0], 'w': [0.25, 0.5, -8.0], 'dt': 0.015625, 'order': 3, 'form': 'f32'}),
+        ('series', {'q': [0.0, 0.0, 1.0, 0.0], 'w': [0.25, 0.5, -8.0], 'dt': 0.015625, 'order': 3, 'form': 'tuple'}),
         ('deadreck', {'q': e, 'w': [0.0, 0.0, 0.0], 'dt': 0.01}),
         ('deadreck', {'q': [0.0, 0.6, 0.0, 0.8], 'w': [0.0, 0.0, 10.0], 'dt': 0.05}),
         ('deadreck', {'q': [0.5, 0.5, 0.5, 0.5], 'w': [0.01, 0.0, 0.0], 'dt': 0.001}),
